@@ -155,6 +155,20 @@ func (in *Interp) ancestor(f *File) *File {
 func (in *Interp) rootOf(f *File) []*Node {
 	a := in.ancestor(f)
 	body := a.Body
+	if n := len(a.Imports); (a.Extends != "" || n > 0) && len(a.HdrWS) > 0 {
+		// whitespace printed after the last header clause is part of the first text token
+		last := n - 1
+		if a.Extends != "" {
+			last++
+		}
+		if last < len(a.HdrWS) && a.HdrWS[last] != "" {
+			if len(body) > 0 && body[0].K == "text" {
+				body = append([]*Node{{K: "text", Text: a.HdrWS[last] + body[0].Text, File: body[0].File, Line: body[0].Line}}, body[1:]...)
+			} else {
+				body = append([]*Node{{K: "text", Text: a.HdrWS[last]}}, body...)
+			}
+		}
+	}
 	if a.Extends != "" || len(a.Imports) > 0 {
 		for len(body) > 0 && (body[0].K == "comment" || (body[0].K == "text" && strings.TrimSpace(body[0].Text) == "")) {
 			body = body[1:]
